@@ -69,6 +69,10 @@ pub struct LoopCase {
     /// Allocation scripts only run while the thread's round index is below this.
     #[serde(default)]
     pub alloc_until_round: Option<u64>,
+    /// Bit i set = thread i runs the allocation scripts (None = every thread): a thread that performs no
+    /// allocator operation at all next to one that does.
+    #[serde(default)]
+    pub alloc_threads: Option<u32>,
     /// Clock ticks consumed per execution of each site, indexed by the thread's
     /// round (last entry repeats).
     pub cost: [Vec<u64>; 5],
@@ -102,6 +106,7 @@ impl LoopCase {
             panic: None,
             alloc: [0; 5],
             alloc_until_round: None,
+            alloc_threads: None,
             cost: [vec![0], vec![0], vec![1000], vec![0], vec![0]],
             thread_skew: 0,
             read_cost: 0,
@@ -318,6 +323,7 @@ fn sites() -> Arc<Sites> {
 impl Sites {
     fn visit(&self, site: usize) {
         let thread = log::thread_index();
+        note_pool_index(thread);
         let nth = {
             let mut occ = self.occurrences.lock().unwrap_or_else(|e| e.into_inner());
             if occ.len() <= thread as usize {
@@ -328,7 +334,8 @@ impl Sites {
             n
         };
         // Allocation script, thread-distinct sizes.
-        let scripts_on = self.case.alloc_until_round.map_or(true, |r| clock::round_of_current_thread() < r);
+        let scripts_on = self.case.alloc_until_round.map_or(true, |r| clock::round_of_current_thread() < r)
+            && self.case.alloc_threads.map_or(true, |mask| mask >> thread & 1 == 1);
         for &op in ALLOC_SCRIPTS[if scripts_on { self.case.alloc[site] } else { 0 }] {
             let bump = thread as u64 * 4096;
             let op = match op {
@@ -517,6 +524,9 @@ impl Drop for OutSd {
 // ---------------------------------------------------------------------------
 
 pub struct LoopOutcome {
+    /// Pool index (0 = the caller, i = the worker named `divan-i`) of each trace thread, when the OS
+    /// thread names tell (real threads only; empty when they do not identify the threads one to one).
+    pub pool_index: Vec<usize>,
     /// The run was cut because its clock-read / call budget was exhausted.
     pub horizon: bool,
     pub events: Vec<Event>,
@@ -669,6 +679,7 @@ pub fn run_case(case: &LoopCase) -> LoopOutcome {
         occurrences: Mutex::new(Vec::new()),
     }));
     log::reset();
+    POOL_INDEX.lock().unwrap_or_else(|e| e.into_inner()).clear();
     clock::enable(case.freq, 1_000_000, case.read_cost, case.horizon);
     clock::force_precision(Some(case.precision_ps as u128));
     clock::force_overheads(Some(case.overhead_ps.map(|p| p as u128)));
@@ -698,7 +709,31 @@ pub fn run_case(case: &LoopCase) -> LoopOutcome {
             }),
         ),
     };
-    LoopOutcome { horizon, events, report, panic, end_time, reads }
+    let mut pool_index = std::mem::take(&mut *POOL_INDEX.lock().unwrap_or_else(|e| e.into_inner()));
+    let mut sorted = pool_index.clone();
+    sorted.sort_unstable();
+    sorted.dedup();
+    if sorted.len() != pool_index.len() || pool_index.contains(&usize::MAX) {
+        pool_index.clear(); // not one to one (e.g. coroutine threads under loom): no claim
+    }
+    LoopOutcome { pool_index, horizon, events, report, panic, end_time, reads }
+}
+
+/// trace thread index -> pool index, filled by `Sites::visit`.
+static POOL_INDEX: Mutex<Vec<usize>> = Mutex::new(Vec::new());
+
+fn note_pool_index(thread: u32) {
+    let mut map = POOL_INDEX.lock().unwrap_or_else(|e| e.into_inner());
+    if map.len() <= thread as usize {
+        map.resize(thread as usize + 1, usize::MAX);
+    }
+    if map[thread as usize] == usize::MAX {
+        let current = std::thread::current();
+        map[thread as usize] = match current.name().and_then(|n| n.strip_prefix("divan-")).and_then(|i| i.parse().ok()) {
+            Some(i) => i,
+            None => 0,
+        };
+    }
 }
 
 // ---------------------------------------------------------------------------
